@@ -5,12 +5,15 @@
 (* the class of its underlay; two more steps choose the requester's class   *)
 (* and AllowPrivateCIDRs.  tlc -simulate samples setups; every emitted      *)
 (* setup is paired with the full product of requests                        *)
-(*   limits (VERIF_LIMITS = "all": 0..40, else the boundary values)         *)
+(*   limits (VERIF_LIMITS = "all": 0..40, "ge2": boundary values from 2 on, *)
+(*   else the boundary values from 0 on)                                    *)
 (*   x targets x order lists.                                               *)
 EXTENDS Hive, TLC, Json, IOUtils
 
 Env(k, d) == IF k \in DOMAIN IOEnv THEN IOEnv[k] ELSE d
-GLimits == IF Env("VERIF_LIMITS", "edge") = "all" THEN 0..40 ELSE {0, 1, 2, 3, 4, 5, 7, 29, 30, 31, 40}
+GLimits == CASE Env("VERIF_LIMITS", "edge") = "all" -> 0..40
+             [] Env("VERIF_LIMITS", "edge") = "ge2" -> {2, 3, 4, 5, 6, 7, 8, 29, 30, 31, 32, 40}
+             [] OTHER -> {0, 1, 2, 3, 4, 5, 7, 29, 30, 31, 40}
 \* the requester is <<1,7>>; it is itself in the pool (a requester is normally a connected peer)
 Pool == <<<<1,7>>, <<0,1>>, <<0,9>>, <<1,3>>, <<1,4>>, <<2,0>>, <<2,7>>, <<31,2>>, <<3,5>>>>
 ReqAddr == <<1,7>>
